@@ -45,7 +45,7 @@ TAMS = ["dig0", "dig1", "swapm", "dotdot", "deepdot", "abs", "symlink", "hardlin
         "dupl", "dups", "duplr", "dupsr", "dupman", "dupl", "dupman"]
 AUX = [100, 101, 102, 103, 104]   # node ids of files outside the artifact directories (symlink targets)
 SIGS = ["flip", "none", "wkey", "garb"]
-HEALTH = ["failed", "degraded", "invalid", "stale"]
+HEALTH = ["failed", "degraded", "invalid", "stale", "stalep"]   # stale / stalep: right state, version string off by a suffix / a prefix
 
 
 def link_target(rng, p):
